@@ -20,6 +20,8 @@ def _build(kind, me, sleep=0.5):
     if kind == "poll":
         def poll_fn(ds):
             for d in ds:
+                if getattr(d.result, "poison", False):
+                    raise Boom("poll function fails")
                 d.yield_result(d.result)
         return Executors.with_poll(me, poll_fn, default_interval=50.0)
     if kind == "throttle":
@@ -125,7 +127,8 @@ def scn_refs(ctx):
     hist = []
     n = p.get("n", 2)
     for i in range(n):
-        how = ("complete", "fail", "cancel-early", "cancel-in-flight")[ctx.choice(4, "how%d" % i)]
+        fates = ("complete", "fail", "cancel-early", "cancel-in-flight") + (("poll-raises",) if kind == "poll" else ())
+        how = fates[ctx.choice(len(fates), "how%d" % i)]
         hist.append(how)
         fn, arg, res = Fn(i), Obj(("arg", i)), Obj(("res", i))
         f = ex.submit(fn, arg, key=arg)
@@ -142,6 +145,10 @@ def scn_refs(ctx):
             if how == "cancel-in-flight":
                 f.cancel()
             elif how == "complete":
+                for d in ds:
+                    finish(d, "value", res)
+            elif how == "poll-raises":
+                res.poison = True
                 for d in ds:
                     finish(d, "value", res)
             else:
@@ -166,7 +173,7 @@ def scn_refs(ctx):
     d = None
     gc.collect()
     for name, r in sorted(refs.items()):
-        if name.startswith("res") and hist[int(name[3:])] not in ("complete", "fail"):
+        if name.startswith("res") and hist[int(name[3:])] not in ("complete", "fail", "poll-raises"):
             continue
         ctx.check("no-reference-kept", r() is None, "%s still referenced after history %s (executor %s alive)" % (name, hist, kind))
     ctx.reach("refs-checked")
